@@ -9,6 +9,7 @@ import (
 	"sort"
 	"strconv"
 	"strings"
+	"sync/atomic"
 
 	"github.com/jub0bs/cors"
 )
@@ -94,11 +95,10 @@ func serveOnce(m *cors.Middleware, q reqT, pre http.Header) (o outT) {
 // never mention and the model ignores: request target (`*`, absolute form, path and query), Host, protocol version,
 // length, remote address, TLS state, Close. CORS handling is a function of the method and four header fields only, so
 // any dependence on these shows up as a disagreement with the model.
-var dressCount int
+var dressCount atomic.Int64 // serveOnce is also called from the concurrent families
 
 func dressRequest(req *http.Request) {
-	dressCount++
-	k := dressCount
+	k := int(dressCount.Add(1))
 	switch k % 7 {
 	case 1:
 		req.RequestURI = "*"
